@@ -1,6 +1,6 @@
 """C15  Step-size control: rejected steps shrink the step and keep the point (L1 part; the
 controllers themselves are checked at L2 in harness.ctrl once built)."""
-from . import loop
+from . import ctrl, loop
 
 OWNED = ["C15."]
 REQUIRED = [
@@ -10,20 +10,25 @@ REQUIRED = [
     "C15.iterate_kept_after_rejection",
     "C15.iterate_changes_only_to_accepted_candidate",
     "C15.first_dt_is_1_over_lamb_init",
+    "C15.rejected_trial_increases_lambda",
+    "C15.failure_doubles_lambda",
+    "C15.exact_accepted_solves_implicit_euler_to_newton_tol",
+    "C15.fixed_controller_keeps_lambda",
+    "C15.lambda_stays_positive",
 ]
 META = dict(
-    functions_encoded=loop.FUNCTIONS,
-    stubs=loop.STUBS,
+    functions_encoded=loop.FUNCTIONS + ctrl.FUNCTIONS,
+    stubs=loop.STUBS + ctrl.STUBS,
     assumptions=loop.LOOP_ASSUMPTIONS,
     bounds=dict(quick="K=2 trial steps, n=1, m<=1, policies DualNorm/ObjectiveFilter/Constant", thorough="K=3 (4 without constraints), all six policies"),
     outside=["runs longer than K trial steps"],
-    explanation="Loop-level half of C15: lambda hand-over between trials, abort at lamb_max, iterate kept unless accepted.",
+    explanation="Loop level (L1): lambda hand-over between trials, abort at lamb_max, iterate kept unless accepted.  Controller level (L2): one real compute_step from an arbitrary state for each controller: rejected => lambda' > lambda, failure => 2*lambda and same iterate, Exact accepted => independent implicit-Euler residual <= newton_tol componentwise, accepted step inside the box.",
 )
 
 
 def tasks(tier):
     if tier == "quick":
         combos = [dict(policy=p, cons=c) for p in ("DualNorm", "ObjectiveFilter", "Constant") for c in ([], ["eq0"])]
-        return loop.loop_tasks(combos, 2)
+        return loop.loop_tasks(combos, 2) + ctrl.ctrl_tasks(tier)
     combos = [dict(policy=p, cons=c) for p in loop.POLICIES for c in (["eq0"], ["ge"])]
-    return loop.loop_tasks(combos, 3) + loop.loop_tasks([dict(policy=p, cons=[]) for p in ("DualNorm", "ObjectiveFilter")], 4)
+    return ctrl.ctrl_tasks(tier) + loop.loop_tasks(combos, 3) + loop.loop_tasks([dict(policy=p, cons=[]) for p in ("DualNorm", "ObjectiveFilter")], 4)
